@@ -789,7 +789,7 @@ pub fn observe<E: EndianParse, S: Sink>(data: &[u8], s: &mut S, opts: &Opts) -> 
         }
         Err(_) => s.done(false),
     }
-    for (k, name) in ["", ".absent", ".dyn", ".shstrtab", ".symtab", "\u{e9}"].iter().enumerate() {
+    for (k, name) in ["", ".absent", ".dyn", ".shstrtab", ".symtab", "\u{e9}", ".text", ".bss", ".debug_info", ".zdebug_info", ".note.gnu.build-id", ".gnu_debuglink", ".rela.dyn", ".comment", ".gnu.version_r"].iter().enumerate() {
         s.call(Key::new(Q_BYNAME, 5000 + k as u32));
         match f.section_header_by_name(name) {
             Ok(Some(x)) => {
